@@ -1537,3 +1537,84 @@ pub fn e2_crossblock(ctx: &Ctx, name: &str, st: &mut Local, f: Sink) {
     e.bound = "8 multi-block streams: a stored block (text / noise) followed by a fixed or dynamic block whose references reach into the stored bytes, with and without a leading huffman block".into();
     e.exhaustive = true;
 }
+
+/// E3pair: two dynamic blocks in one stream whose headers look alike but mean different things
+/// (same run-length item list with a different HLIT/HDIST split, same code lengths with a different
+/// run-length coding, same items with a different code-length code), in both orders and with a
+/// stored / fixed block in between: state carried from one block to the next must not leak
+pub fn e3_pairs(ctx: &Ctx, name: &str, st: &mut Local, f: Sink) {
+    if !ctx.engine_on(name) {
+        return;
+    }
+    let r = |len: u16, dist: u16| Tok::Ref { len, dist, irr: false };
+    // literal/length lengths: a, b, c, EOB, 257 (len 3), 258 (len 4) -> a complete code
+    let mut x = vec![0u8; 259];
+    x[b'a' as usize] = 2;
+    x[b'b' as usize] = 3;
+    x[b'c' as usize] = 3;
+    x[256] = 3;
+    x[257] = 3;
+    x[258] = 2;
+    assert_eq!(kraft(&x), 1 << 15);
+    // block A: HLIT 259, distance lengths [0, 1, 1]  (distances 2 and 3)
+    // block B: HLIT 260 (one unused symbol), distance lengths [1, 1] (distances 1 and 2): same concatenation
+    let toks_a = vec![Tok::Lit(b'a'), Tok::Lit(b'b'), Tok::Lit(b'c'), r(3, 2), r(4, 3), Tok::Lit(b'a')];
+    let toks_b = vec![Tok::Lit(b'c'), Tok::Lit(b'a'), r(3, 1), r(4, 2), Tok::Lit(b'b')];
+    let hdr_a = header_from_lengths(&x, &[0, 1, 1]);
+    let mut xb = x.clone();
+    xb.push(0);
+    let hdr_b = header_from_lengths(&xb, &[1, 1]);
+    assert_eq!(hdr_a.items, hdr_b.items);
+    // same lengths, different run-length coding (no runs at all)
+    let mut all = x.clone();
+    all.extend_from_slice(&[0, 1, 1]);
+    let items_lit: Vec<(u8, u8)> = all.iter().map(|&l| (l, 0)).collect();
+    let clc2 = clc_for_items(&items_lit);
+    let hdr_a2 = DynHeader { hlit: 259, hdist: 3, hclen: min_hclen(&clc2), clc: clc2, items: items_lit };
+    // same items, code-length code with HCLEN slack
+    let mut hdr_a3 = hdr_a.clone();
+    hdr_a3.hclen = 19;
+    let blocks: Vec<(&str, Block)> = vec![
+        ("A", Block::Dyn { toks: toks_a.clone(), hdr: hdr_a.clone() }),
+        ("B", Block::Dyn { toks: toks_b.clone(), hdr: hdr_b.clone() }),
+        ("A-literal-rle", Block::Dyn { toks: toks_a.clone(), hdr: hdr_a2 }),
+        ("A-hclen19", Block::Dyn { toks: toks_a.clone(), hdr: hdr_a3 }),
+        ("A-default", Block::Dyn { toks: toks_a.clone(), hdr: default_header(&toks_a) }),
+    ];
+    let seps: Vec<(&str, Option<Block>)> = vec![
+        ("", None),
+        ("stored", Some(Block::Stored { data: b"xyz".to_vec(), pad: 0x1f })),
+        ("fixed", Some(Block::Fixed { toks: vec![Tok::Lit(b'q')] })),
+        ("empty-dynamic", Some(Block::Dyn { toks: vec![], hdr: default_header(&[]) })),
+    ];
+    let mut idx = 0u64;
+    for (n1, b1) in &blocks {
+        for (n2, b2) in &blocks {
+            for (ns, sep) in &seps {
+                let i = idx;
+                idx += 1;
+                if ctx.sel.mine(i) {
+                    let e = st.eng(name);
+                    e.states += 1;
+                    e.transitions += 2 + sep.is_some() as u64;
+                    e.nontrivial += 1;
+                }
+                if !ctx.take(name, i) {
+                    continue;
+                }
+                let mut bl = vec![b1.clone()];
+                if let Some(s) = sep {
+                    bl.push(s.clone());
+                }
+                bl.push(b2.clone());
+                let s = Stream { blocks: bl, final_pad: 0 };
+                let bytes = serialise(&s);
+                let case = StreamCase { stream_len: bytes.len(), plain: Some(plaintext(&s)), bytes, descr: format!("dynamic {} , {} , dynamic {}", n1, ns, n2) };
+                deliver(ctx, name, st, i, case, f);
+            }
+        }
+    }
+    let e = st.eng(name);
+    e.bound = "all ordered pairs of 5 dynamic blocks (same item list with different HLIT/HDIST split, literal run-length coding, HCLEN slack, default header) x {adjacent, stored / fixed / empty dynamic block in between}".into();
+    e.exhaustive = true;
+}
